@@ -163,6 +163,8 @@ def client_case(case):
         fs.listing_by_arg[k] = v.encode("latin-1")
     for k, v in case.get("replies_by_line", {}).items():
         fs.replies_by_line[k] = v.encode("latin-1")
+    if "completion" in case:
+        fs.completion = None if case["completion"] is None else case["completion"].encode("latin-1")
     result = {}
     tmp = None
     try:
@@ -264,7 +266,8 @@ def client_work(cases):
                 if len(result["value"]) != case["expect_lines"]:
                     problems.append({"kind": "listing-line-dropped-or-invented", "got": len(result["value"]),
                                      "lines": case["expect_lines"]})
-            elif not result.get("exc_is_value_error") and result.get("exc") not in ("StatusCodeError", "ConnectionResetError"):
+            elif not result.get("exc_is_value_error") and (case.get("strict_value_error") or result.get("exc") not in
+                                                           ("StatusCodeError", "ConnectionResetError")):
                 problems.append({"kind": "listing-error-not-valueerror", "exc": result.get("exc")})
         if case.get("inside"):
             inside = case["inside"]
@@ -311,6 +314,14 @@ def client_items(tier):
               b"01/15/2024  12:30 PM             1,024 "):
         cases.append({"op": "list", "raw": "LIST", "listing": L(good1 + b"\r\n" + m + b"\r\n" + good2 + b"\r\n"),
                       "mutated": "nameless-line", "expect_lines": 3})
+    # a line that cannot be parsed, and a server that answers the broken-off transfer with 426 / 451 / not at all: the
+    # caller gets the ValueError that names the line, whatever the server says afterwards
+    for raw, good, bad in (("MLSD", MLSX[0], b"type=file;size=3;"), ("LIST", UNIX[0], b"-rw-r--r-- 1 none none 10 Jan 15 12:30"),
+                           ("MLSD", MLSX[0], b"garbage"), ("LIST", UNIX[0], b"garbage line")):
+        for completion in ("426 data connection lost\r\n", "451 failed\r\n", "226-wait\r\n", None):
+            cases.append({"op": "list", "raw": raw, "listing": L(good + b"\r\n" + bad + b"\r\n" + good + b"\r\n"),
+                          "mutated": "bad-line-and-no-clean-completion", "expect_lines": 3, "completion": completion,
+                          "strict_value_error": True})
     # MLSD lines without a pathname
     for m in (b"type=file;size=3;", b"Type=file;Size=3;Modify=20240115123000;", b"type=file;size=3; ", b"garbage", b";",
               b"type=dir;"):
